@@ -13,6 +13,7 @@ import NeumannModel.Parse.Model
             parse_nolimit <tok>*    the same Pratt loop without depth counter (parser.rs)
             print  min|full|all T   token list of the printer the theorems speak about
             frames min|full|all T   nesting depth the real parser needs for that print
+            normal <tok>*           printMin of the parse (Props.parse_normal_form), or the error
 -/
 open Neumann Neumann.Proto Neumann.Parse
 
@@ -115,6 +116,11 @@ def parseStep (_ : Unit) (line : String) : Unit × String :=
       | some ts => ((), showRes ts.length (parse ts)) | none => bad
   | "parse_nolimit" :: ws => match ws.mapM readTok with
       | some ts => ((), showRes ts.length (parseNoLimit ts)) | none => bad
+  | "normal" :: ws => match ws.mapM readTok with
+      | some ts => (match parse ts with
+          | .ok e => ((), "ok " ++ " ".intercalate ((printMin e).map showTok))
+          | r => ((), showRes ts.length r))
+      | none => bad
   | "print" :: mode :: ws => match extraOf mode, readTree ws with
       | some x, some e => ((), " ".intercalate ((printWith x e).map showTok)) | _, _ => bad
   | "frames" :: mode :: ws => match extraOf mode, readTree ws with
